@@ -3,7 +3,9 @@ package ocsp
 import (
 	"bytes"
 	"crypto"
+	"crypto/sha256"
 	"crypto/x509"
+	"encoding/hex"
 	"errors"
 	"fmt"
 	"github.com/gr33nbl00d/caddy-revocation-validator/config"
@@ -44,8 +46,11 @@ func (c *OCSPRevocationChecker) IsRevoked(clientCertificate *x509.Certificate, v
 	if err != nil {
 		return nil, err
 	}
-	//a certificate is identified by issuer and serial, the subject alone is not unique across issuers
-	cacheKey := issuer.String() + "_" + subjectRDNSequence.String() + "_" + clientCertificate.SerialNumber.String()
+	//a certificate is identified by issuer and serial, the subject alone is not unique across issuers.
+	//the issuer name alone is not unique either (a ca which was re-keyed under its old name), so the answer is
+	//remembered for exactly this certificate
+	certificateHash := sha256.Sum256(clientCertificate.Raw)
+	cacheKey := issuer.String() + "_" + subjectRDNSequence.String() + "_" + clientCertificate.SerialNumber.String() + "_" + hex.EncodeToString(certificateHash[:])
 	cache, err := c.tryGetResponseFromCache(cacheKey)
 	if err == nil {
 		return cache, nil
